@@ -291,10 +291,7 @@ class Parser:
     def try_type(self) -> Optional[A.Node]:
         t = self.tok
         if t.kind == "IDENT":
-            tn = self.parse_type_name()
-            if self.is_op("[") and self.expr_lev >= 0 and False:
-                pass
-            return tn
+            return self.parse_type_name()
         if t.kind == "OP":
             v = t.value
             if v == "*":
